@@ -92,6 +92,24 @@ def prove(ctx, claim, timeout_ms=20000, with_pc="auto", extra=()):
             last = f"sat-at-level-{lvl}"
         else:
             last = "unknown:" + s.reason_unknown()
+            if lvl == 0 and z3.is_not(z3.Not(claim)) and z3.is_eq(claim):
+                # pure polynomial identity the solver's simplifier could not expand: normalise exactly
+                # (monomial dictionary) and ask again about the normalised polynomial
+                try:
+                    from .poly import normalize_eq
+                    a, b = claim.children()
+                    nt, nterms = normalize_eq(a - b, budget_s=min(90.0, timeout_ms / 1000.0))
+                    s2 = z3.Solver()
+                    s2.set("timeout", int(min(30000, timeout_ms)))
+                    s2.add(nt != 0)
+                    ctx.queries += 1
+                    if s2.check() == z3.unsat:
+                        dt = time.time() - t0
+                        ctx.solver_time += dt
+                        return dict(status="proved", model=None, t=dt, used_pc=False, level="0-normalised",
+                                    poly_terms=nterms)
+                except Exception as e:  # TooBig / unsupported node: fall through to the next level
+                    last += f" (normalisation: {type(e).__name__})"
     dt = time.time() - t0
     ctx.solver_time += dt
     return dict(status="unknown", model=None, t=dt, used_pc=True, reason=last)
